@@ -72,7 +72,9 @@ def c14Params (tbl : List IdentEntry) (f : WFormat) (encErr : String) (hduErr op
       else if items.isEmpty && emptyBlank f then .ok []
       else
         match serIds items with
-        | .ok ids => .ok (c14Sig tbl f ++ s!"SER({f.name};{",".intercalate ids})".toList)
+        | .ok ids =>
+          if ids.isEmpty && keptBlank f then .ok []   -- every element was skipped
+          else .ok (c14Sig tbl f ++ s!"SER({f.name};{",".intercalate ids})".toList)
         | .error e => .error e
     enc := fun t => if encErr.isEmpty then .ok t else .error encErr
     hdu := hduErr
